@@ -3,7 +3,7 @@
 # editable install pointing at /repo) + crosshair-tool/z3/cvc5/jsonschema from the offline wheelhouse.
 set -e
 cd "$(dirname "$0")"
-V=/verif/.venv
+V="$(pwd)/.venv"
 if [ -x "$V/bin/python" ] && "$V/bin/python" -c "import crosshair, z3, rdflib" 2>/dev/null; then
   exit 0
 fi
